@@ -225,4 +225,64 @@ theorem aborted_prefix (n : Nat) (c c' : Cfg) (hs : SameCore c c') (hle : Budget
     exact this.symm
   rw [this]
 
+/-! ### the counter IS the number of operations started, over whole runs -/
+
+/-- does this configuration start an operation on VM `i`? -/
+def startsOn (c : Cfg) (i : Nat) : Nat :=
+  match c.ctl with
+  | .ev _ j => if j = i then 1 else 0
+  | _ => 0
+
+/-- number of operations started on VM `i` during the first `n` steps from `c` -/
+def evCount : Nat → Cfg → Nat → Nat
+  | 0, _, _ => 0
+  | n + 1, c, i => startsOn c i + evCount n (step c) i
+
+theorem step_counts (c : Cfg) (hv : Valid c) (i : Nat) :
+    (opsOf (step c).w)[i]? = ((opsOf c.w)[i]?).map (· + startsOn c i) := by
+  cases hc : c.ctl with
+  | ev op j =>
+    obtain ⟨vm, N, hvm, hb⟩ := hv op j hc
+    rw [ev_charges_one c op j vm N hc hvm hb]
+    have hlen : j < (opsOf c.w).length := by
+      unfold opsOf; rw [List.length_map]
+      unfold World.vm? at hvm
+      exact (List.getElem?_eq_some_iff.mp hvm).1
+    have hj : (opsOf c.w)[j]? = some vm.ops := by
+      unfold opsOf World.vm? at *
+      rw [List.getElem?_map, hvm]; rfl
+    unfold startsOn
+    simp only [hc]
+    by_cases hji : j = i
+    · subst hji
+      rw [List.getElem?_set]
+      simp only [if_true, hlen, hj, Option.map_some]
+    · simp [List.getElem?_set, hji]
+  | ret v =>
+    rw [other_steps_charge_nothing c (by intro op i h; rw [hc] at h; cases h)]
+    simp [startsOn, hc]
+  | raise e =>
+    rw [other_steps_charge_nothing c (by intro op i h; rw [hc] at h; cases h)]
+    simp [startsOn, hc]
+  | done v =>
+    rw [other_steps_charge_nothing c (by intro op i h; rw [hc] at h; cases h)]
+    simp [startsOn, hc]
+  | failed e =>
+    rw [other_steps_charge_nothing c (by intro op i h; rw [hc] at h; cases h)]
+    simp [startsOn, hc]
+
+/-- **the op counter of every VM equals its initial value plus the number of operations started on it**, after
+    any number of steps of any run (every node evaluation is charged exactly once, nothing else is) -/
+theorem ops_counted (n : Nat) (c : Cfg) (hvalid : ∀ k, k < n → Valid (run k c)) (i : Nat) :
+    (opsOf (run n c).w)[i]? = ((opsOf c.w)[i]?).map (· + evCount n c i) := by
+  induction n generalizing c with
+  | zero => simp [run, evCount]
+  | succ n ih =>
+    rw [run, ih (step c) (fun k hk => by have := hvalid (k + 1) (by omega); rwa [run] at this)]
+    rw [step_counts c (hvalid 0 (by omega)) i]
+    simp only [evCount, Option.map_map]
+    congr 1
+    funext x
+    simp [Function.comp, Nat.add_assoc]
+
 end SqProps.C01
